@@ -52,6 +52,7 @@ struct C06Forest
     bool libraryAliasNamedLikeOtherUnits = false; // a library units X equals another model's units Y while the library has its own, different Y
     bool unitsDependencyIsImport = false; // a library units refers to units that the library imports
     bool libraryImportElementWithPlaceholders = false; // an import element inside a library model has (placeholder) variables
+    bool importedUnitsNamedLikeLibraryUnits = false; // units imported under a name that other units of the model they come from have
     bool importerChildrenUseImportedUnits = false; // components below an import element use units their model imports
 
     std::string describe() const;
